@@ -17,7 +17,8 @@ LEVEL_TEXT = ("glexsort: all key matrices with entries 0..2 up to a size bound a
               "graded/reverse settings and checked to be permutations that sort the columns in the reference order (ties "
               "between identical columns free), under the default and a reduced numpy CPU-feature configuration; large "
               "random matrices with many ties are sampled. glexindex/bindex/cross_truncate/monomial: all (start <= stop, "
-              "dimensions, cross_truncation in {0,.5,.8,1,2,inf}, graded, reverse) settings up to a bound are compared "
+              "dimensions, cross_truncation in {0,.5,.8,1,2,inf} and (lower, upper) norm pairs, graded, reverse) settings up "
+              "to a bound, start > stop settings, and one-dimensional windows beyond 2**8 and 2**16 are compared "
               "with brute-force enumeration of the grid whose membership is decided in exact rational arithmetic (q in "
               "{0,1,2,inf}) or 60-digit mpmath (q in {.5,.8}).")
 EXHAUSTIVE = False
@@ -29,8 +30,8 @@ ENV_CONFIGS = [None, {"NPY_DISABLE_CPU_FEATURES": "X86_V4 X86_V3 AVX512_ICL AVX5
 RULE = (
     "glexsort(keys, graded, reverse): output is a permutation of range(n) and the key columns in output order are "
     "non-decreasing under the reference key (total degree first if graded; then lexicographic with the last row most "
-    "significant, or the first row if reverse). glexindex/bindex: result == brute-force {x in grid : member(x, stop-1, q) "
-    "xor member(x, start-1, q)} sorted by the reference key, no duplicates; cross_truncate == the exact L_q membership "
+    "significant, or the first row if reverse). glexindex/bindex: result == brute-force {x in grid : member(x, stop-1, q_upper) "
+    "and not member(x, start-1, q_lower)} (empty when start > stop) sorted by the reference key, no duplicates; cross_truncate == the exact L_q membership "
     "(points within 1e-40 of the boundary count as inside); monomial(...)[i] is the single monomial with exponent row i. "
     "non-trivial = >= 2 distinct key columns of equal grade (glexsort) / >= 2 dimensions with a truncation that removes "
     "at least one grid point (index functions)."
@@ -41,6 +42,7 @@ ASSUMPTIONS = [
     "mpmath at 60 digits decides q in {0.5, 0.8}; a norm within 1e-40 of 1 is on the boundary",
 ]
 NORMS = [0, 0.5, 0.8, 1, 2, "inf"]
+PAIRS = [["inf", 1], [1, "inf"], ["inf", 0.5], [2, 1], [0, 2]]  # (lower norm, upper norm)
 SETTINGS = [(False, False), (False, True), (True, False), (True, True)]
 
 
@@ -74,9 +76,18 @@ def member(x, bound, q):
     return s <= 1 + mpmath.mpf("1e-40")
 
 
+def norms_of(q):
+    """(lower norm, upper norm): a pair gives both, a single value is the upper one (the lower default is 1)."""
+    if isinstance(q, (list, tuple)):
+        return q[0], q[1]
+    return q, q
+
+
 def ref_glexindex(start, stop, q, graded, reverse):
+    """The tuples inside the upper bound (stop-1, upper norm) and not inside the lower one (start-1, lower norm)."""
     D = len(stop)
     bound = max(stop)
+    q_lo, q_hi = norms_of(q)
     if D == 1:
         lo = max(start[0], 0)
         pts = [(v,) for v in range(bound) if lo <= v < bound]
@@ -85,13 +96,15 @@ def ref_glexindex(start, stop, q, graded, reverse):
         up = [s - 1 for s in stop]
         lo = [max(s, 0) - 1 for s in start]
         for x in itertools.product(range(max(bound, 0)), repeat=D):
-            if member(x, up, q) != member(x, lo, q):
+            if member(x, up, q_hi) and not member(x, lo, q_lo):
                 pts.append(x)
     pts.sort(key=lambda v: order_key(v, graded, reverse))
     return pts
 
 
 def qval(q):
+    if isinstance(q, (list, tuple)):
+        return [qval(q[0]), qval(q[1])]
     return numpy.inf if q == "inf" else q
 
 
@@ -145,11 +158,13 @@ def check_grid(numpoly, start, stop, dims, q, graded, reverse, fails, scalar):
         a_start, a_stop = list(start), list(stop)
         st_, sp_ = list(start), list(stop)
     want = ref_glexindex(st_, sp_, q, graded, reverse)
-    cls = "%dd,q=%s%s" % (dims, q, "" if scalar else ",per-axis")
+    qtag = "%s/%s" % tuple(q) if isinstance(q, (list, tuple)) else q
+    cls = "%dd,q=%s%s" % (dims, qtag, "" if scalar else ",per-axis")
     label = "start=%s stop=%s dims=%d q=%s graded=%s reverse=%s" % (a_start, a_stop, dims, q, graded, reverse)
 
     def fail(fn, kind, msg):
-        key = "%s:%s:%s" % (fn, kind, "q=%s" % q if kind == "membership" else ("graded" if graded else "lex"))
+        key = "%s:%s:%s" % (fn, kind, ("q=%s" % qtag) + (",start>stop" if any(a > b for a, b in zip(st_, sp_)) else "")
+                            if kind == "membership" else ("graded" if graded else "lex"))
         if not any(f.bucket == key for f in fails):
             fails.append(Failure(key, "%s: %s" % (label, msg),
                                  case={"grid_one": {"start": list(start), "stop": list(stop), "dims": dims, "q": q,
@@ -190,8 +205,8 @@ def check_grid(numpoly, start, stop, dims, q, graded, reverse, fails, scalar):
         grid = numpy.array(list(itertools.product(range(max(bound, 1)), repeat=dims)), dtype=int)
         up = [s - 1 for s in sp_]
         try:
-            mask = numpoly.cross_truncate(grid, up if not scalar else up[0], qval(q))
-            expm = [member(tuple(x), up, q) for x in grid.tolist()]
+            mask = numpoly.cross_truncate(grid, up if not scalar else up[0], qval(norms_of(q)[1]))
+            expm = [member(tuple(x), up, norms_of(q)[1]) for x in grid.tolist()]
             if numpy.asarray(mask).tolist() != expm:
                 bad = [grid[i].tolist() for i, (a, b) in enumerate(zip(numpy.asarray(mask).tolist(), expm)) if a != b][:5]
                 fail("cross_truncate", "membership", "bound %s: wrong at %s" % (up, bad))
@@ -237,6 +252,13 @@ def grid_settings(tier):
         for stop in range(0, smax + 1):
             for start in range(0, stop + 1):
                 out.append(((start,), (stop,), dims, True))
+    # start above stop: nothing lies between the bounds
+    for dims in (1, 2, 3):
+        for start, stop in ((1, 0), (2, 1), (3, 2), (3, 1), (4, 2)):
+            out.append(((start,), (stop,), dims, True))
+    out.append(((2, 0), (1, 3), 2, False))
+    out.append(((0, 3), (3, 2), 2, False))
+    out.append(((3, 0, 1), (2, 2, 2), 3, False))
     pmax = 3 if tier == "quick" else 4
     for dims in (2, 3):
         for stop in itertools.product(range(1, pmax + 1), repeat=dims):
@@ -278,10 +300,21 @@ def random_case(draw):
         flat = draw(st.lists(st.integers(0, hi), min_size=D * n, max_size=D * n))
         return {"glexsort_random": {"D": D, "n": n, "flat": flat},
                 "graded": draw(st.booleans()), "reverse": draw(st.booleans())}
+    if draw(st.integers(0, 5)) == 0:
+        # one dimension, bounds around and beyond the widths of the narrow integer types
+        base = draw(st.sampled_from([250, 65530, 65536, 70000, 131070, 200000]))
+        start = base + draw(st.integers(-4, 8))
+        return {"big_1d": {"start": start, "stop": start + draw(st.integers(0, 9)),
+                           "graded": draw(st.booleans()), "reverse": draw(st.booleans())}}
     dims = draw(st.integers(2, 4))
     stop = draw(st.lists(st.integers(0, 6 if dims < 4 else 4), min_size=dims, max_size=dims))
     start = [draw(st.integers(0, s)) if draw(st.integers(0, 2)) == 0 else 0 for s in stop]
-    return {"grid_one": {"start": start, "stop": stop, "dims": dims, "q": draw(st.sampled_from(NORMS)),
+    if draw(st.integers(0, 5)) == 0:
+        # a start bound above the stop bound in some axis
+        i = draw(st.integers(0, dims - 1))
+        start[i] = stop[i] + draw(st.integers(1, 2))
+    q = draw(st.sampled_from(NORMS)) if draw(st.integers(0, 3)) else [draw(st.sampled_from(NORMS)), draw(st.sampled_from(NORMS))]
+    return {"grid_one": {"start": start, "stop": stop, "dims": dims, "q": q,
                          "graded": draw(st.booleans()), "reverse": draw(st.booleans()), "scalar": False}}
 
 
@@ -339,12 +372,28 @@ def check_case(case, ctx):
     if "grid_chunk" in case:
         total = nt = 0
         for start, stop, dims, scalar in case["grid_chunk"]:
-            for q in NORMS:
+            for q in NORMS + (PAIRS if dims >= 2 else []):
                 for graded, reverse in SETTINGS:
                     total += 1
                     nt += bool(check_grid(numpoly, start, stop, dims, q, graded, reverse, fails, scalar))
         ctx.add_evals(total, nt)
         ctx.label("enumerated:grids")
+        return fails
+    if "big_1d" in case:
+        b = case["big_1d"]
+        want = [[v] for v in range(max(b["start"], 0), b["stop"])]
+        for fn, call in (("glexindex", lambda: numpoly.glexindex(b["start"], b["stop"], graded=b["graded"], reverse=b["reverse"])),
+                         ("bindex", lambda: numpoly.bindex(b["start"], b["stop"], ordering="G" if b["graded"] else ""))):
+            try:
+                got = numpy.asarray(call()).reshape(-1, 1).tolist()
+            except Exception as err:
+                fails.append(Failure("%s:exception:1d-large" % fn, "start=%d stop=%d: %r" % (b["start"], b["stop"], err)))
+                continue
+            if got != want:
+                fails.append(Failure("%s:membership:1d-large" % fn, "start=%d stop=%d: got %s expected %s"
+                                     % (b["start"], b["stop"], got[:12], want[:12])))
+        ctx.label("random:1d-large:%s" % (">=65536" if b["stop"] > 65536 else "<65536"))
+        ctx.nontrivial(len(want) >= 2)
         return fails
     g = case["grid_one"]
     nt = check_grid(numpoly, g["start"], g["stop"], g["dims"], g["q"], g["graded"], g["reverse"], fails, g["scalar"])
